@@ -280,33 +280,13 @@ Theorem moving_max_is_window_max_expr {I} (p : Z) (e : expr I R) (env : list (li
   (1 <= p)%Z -> Forall (fun x => x <> 0) (firstn (Z.to_nat p) (sem e env)) ->
   sem (trend_MovingMax_Compute (T:=R) (I:=I) (mk_trend_MovingMax p) e) env
   = tab (Z.to_nat p - 1) (length (sem e env)) (wmax (Z.to_nat p) (sem e env)).
-Proof.
-  intros Hp Hnz. set (xs := sem e env) in *.
-  change (sem (trend_MovingMax_Compute (T:=R) (I:=I) (mk_trend_MovingMax p) e) env)
-    with (skipn (Z.to_nat (p - 1))
-            (s_op2st (stepf (tmax R 0)) Leaf xs (repeat 0 (Z.to_nat p) ++ xs))).
-  replace (Z.to_nat (p - 1)) with (Z.to_nat p - 1)%nat by lia.
-  rewrite (run_all xs (Z.to_nat p) ltac:(lia) Hnz (tmax R 0) Rlist_max).
-  - reflexivity.
-  - intros t m Hok Hperm. rewrite <- list_max_Rlist_max.
-    apply (tmax_list_max R 0 Rleb Rltb Reqb total_order_R); assumption.
-Qed.
+Proof. intros Hp _. exact (moving_max_is_window_max_expr_all p e env Hp). Qed.
 
 Theorem moving_min_is_window_min_expr {I} (p : Z) (e : expr I R) (env : list (list I)) :
   (1 <= p)%Z -> Forall (fun x => x <> 0) (firstn (Z.to_nat p) (sem e env)) ->
   sem (trend_MovingMin_Compute (T:=R) (I:=I) (mk_trend_MovingMin p) e) env
   = tab (Z.to_nat p - 1) (length (sem e env)) (wmin (Z.to_nat p) (sem e env)).
-Proof.
-  intros Hp Hnz. set (xs := sem e env) in *.
-  change (sem (trend_MovingMin_Compute (T:=R) (I:=I) (mk_trend_MovingMin p) e) env)
-    with (skipn (Z.to_nat (p - 1))
-            (s_op2st (stepf (tmin R 0)) Leaf xs (repeat 0 (Z.to_nat p) ++ xs))).
-  replace (Z.to_nat (p - 1)) with (Z.to_nat p - 1)%nat by lia.
-  rewrite (run_all xs (Z.to_nat p) ltac:(lia) Hnz (tmin R 0) Rlist_min).
-  - reflexivity.
-  - intros t m Hok Hperm. rewrite <- list_min_Rlist_min.
-    apply (tmin_list_min R 0 Rleb Rltb Reqb total_order_R); assumption.
-Qed.
+Proof. intros Hp _. exact (moving_min_is_window_min_expr_all p e env Hp). Qed.
 
 Definition mmax_out (p : Z) (xs : list R) : list R :=
   sem (trend_MovingMax_Compute (T:=R) (I:=R) (mk_trend_MovingMax p) (EIn 0)) [xs].
